@@ -695,3 +695,147 @@ package scipipe
 //@   loop 1 invariant parsed: forall j int :: 0 <= j && j < len(placeHolderInfos) ==> placeHolderInfos[j] != nil && placeHolderInfos[j].match == placeHolderMatches[j][0] && placeHolderInfos[j].portName == splitOf(placeHolderMatches[j][2], "|")[0] && (forall k int :: 0 <= k && k < len(placeHolderInfos[j].modifiers) ==> placeHolderInfos[j].modifiers[k] == splitOf(placeHolderMatches[j][2], "|")[k + 1])
 //@   loop 2 invariant range: 0 <= $i && $i <= len(subStreamIPs[portName]) && len(paths) == $i
 //@   loop 2 invariant joined: forall j int :: 0 <= j && j < $i ==> paths[j] == prependOf(applyMods(subStreamIPs[portName][j].path, placeHolder.modifiers))
+
+// ---------------------------------------------------------------------------
+// C16 / C04: wiring (port.go), readiness (baseprocess.go), starting processes (workflow.go)
+// ---------------------------------------------------------------------------
+
+//@ ghost var spawned arr[ref]int
+//@ ghost var sawReady set[ref]
+//@ ghost func procName(p ref) string
+//@ ghost func inPortsOf(p ref) map[string]*InPort
+//@ ghost func outPortsOf(p ref) map[string]*OutPort
+//@ ghost func inParamPortsOf(p ref) map[string]*InParamPort
+//@ ghost func outParamPortsOf(p ref) map[string]*OutParamPort
+
+// Interface contracts of WorkflowProcess (assumed for dynamic dispatch; every implementation in this repository embeds
+// BaseProcess, whose methods are verified against the same statements below).
+//@ iface scipipe.WorkflowProcess.Name() (res)
+//@   deterministic by-contract the name of a process does not change
+//@   ensures def: res == procName(self)
+//@ iface scipipe.WorkflowProcess.InPorts() (res)
+//@   ensures def: res == inPortsOf(self) && res != nil
+//@ iface scipipe.WorkflowProcess.OutPorts() (res)
+//@   ensures def: res == outPortsOf(self) && res != nil
+//@ iface scipipe.WorkflowProcess.InParamPorts() (res)
+//@   ensures def: res == inParamPortsOf(self) && res != nil
+//@ iface scipipe.WorkflowProcess.OutParamPorts() (res)
+//@   ensures def: res == outParamPortsOf(self) && res != nil
+//@ iface scipipe.WorkflowProcess.Ready() (res)
+//@   modifies sawReady
+//@   ensures saw: res ==> sawReady[self]
+//@   ensures grows: forall p ref :: old(sawReady)[p] ==> sawReady[p]
+//@ iface scipipe.WorkflowProcess.Run()
+//@   modifies *
+//@   onspawn modifies spawned
+//@   onspawn ensures once: spawned == update(old(spawned), self, old(spawned)[self] + 1)
+//@ iface scipipe.WorkflowProcess.Failf(msg, parts)
+//@   noreturn
+//@ iface scipipe.WorkflowProcess.Fail(msg)
+//@   noreturn
+
+//@ func (*BaseProcess).Ready(p) (isReady)
+//@   props C16
+//@   ensures returns-only-if-all-connected: isReady && (forall k string :: k in p.inPorts ==> p.inPorts[k].ready) && (forall k string :: k in p.outPorts ==> p.outPorts[k].ready) && (forall k string :: k in p.inParamPorts ==> p.inParamPorts[k].ready) && (forall k string :: k in p.outParamPorts ==> p.outParamPorts[k].ready)
+//@   loop 0 invariant ok: isReady && forall k string :: $visited[k] ==> p.inPorts[k].ready
+//@   loop 1 invariant ok: isReady && forall k string :: $visited[k] ==> p.outPorts[k].ready
+//@   loop 2 invariant ok: isReady && forall k string :: $visited[k] ==> p.inParamPorts[k].ready
+//@   loop 3 invariant ok: isReady && forall k string :: $visited[k] ==> p.outParamPorts[k].ready
+
+//@ func (*InPort).Ready(pt) (res)
+//@   props C16
+//@   ensures def: res == pt.ready
+//@ func (*OutPort).Ready(pt) (res)
+//@   props C16
+//@   ensures def: res == pt.ready
+//@ func (*InParamPort).Ready(pip) (res)
+//@   props C16
+//@   ensures def: res == pip.ready
+//@ func (*OutParamPort).Ready(pop) (res)
+//@   props C16
+//@   ensures def: res == pop.ready
+//@ func (*InPort).SetReady(pt, ready)
+//@   props C16
+//@   modifies pt.ready
+//@   ensures def: pt.ready == ready
+//@ func (*OutPort).SetReady(pt, ready)
+//@   props C16
+//@   modifies pt.ready
+//@   ensures def: pt.ready == ready
+//@ func (*InParamPort).SetReady(pip, ready)
+//@   props C16
+//@   modifies pip.ready
+//@   ensures def: pip.ready == ready
+//@ func (*OutParamPort).SetReady(pop, ready)
+//@   props C16
+//@   modifies pop.ready
+//@   ensures def: pop.ready == ready
+
+//@ func (*InPort).Process(pt) (res)
+//@   props C16
+//@   ensures def: res == pt.process && res != nil
+//@ func (*OutPort).Process(pt) (res)
+//@   props C16
+//@   ensures def: res == pt.process && res != nil
+//@ func (*InParamPort).Process(pip) (res)
+//@   props C16
+//@   ensures def: res == pip.process && res != nil
+//@ func (*OutParamPort).Process(pop) (res)
+//@   props C16
+//@   ensures def: res == pop.process && res != nil
+//@ func (*InPort).Name(pt) (res)
+//@   props C16
+//@   ensures def: res == procName(pt.process) + "." + pt.name
+//@ func (*OutPort).Name(pt) (res)
+//@   props C16
+//@   ensures def: res == procName(pt.process) + "." + pt.name
+//@ func (*InParamPort).Name(pip) (res)
+//@   props C16
+//@   ensures def: res == procName(pip.process) + "." + pip.name
+//@ func (*OutParamPort).Name(pop) (res)
+//@   props C16
+//@   ensures def: res == procName(pop.process) + "." + pop.name
+//@ func (*InPort).Failf(pt, msg, parts)
+//@   props C09
+//@   noreturn
+//@ func (*InPort).Fail(pt, msg)
+//@   props C09
+//@   noreturn
+//@ func (*OutPort).Failf(pt, msg, parts)
+//@   props C09
+//@   noreturn
+//@ func (*OutPort).Fail(pt, msg)
+//@   props C09
+//@   noreturn
+//@ func (*InParamPort).Failf(pt, msg, parts)
+//@   props C09
+//@   noreturn
+//@ func (*InParamPort).Fail(pt, msg)
+//@   props C09
+//@   noreturn
+//@ func (*OutParamPort).Failf(pt, msg, parts)
+//@   props C09
+//@   noreturn
+//@ func (*OutParamPort).Fail(pt, msg)
+//@   props C09
+//@   noreturn
+//@ func (*Workflow).Failf(wf, msg, parts)
+//@   props C09
+//@   noreturn
+//@ func (*Workflow).Fail(wf, msg)
+//@   props C09
+//@   noreturn
+//@ func (*Workflow).Name(wf) (res)
+//@   props C09
+//@   ensures def: res == wf.name
+//@ func (*Workflow).Auditf(wf, msg, parts)
+//@   props C16
+
+//@ func (*Workflow).readyToRun(wf, procs) (res)
+//@   props C16
+//@   modifies sawReady
+//@   ensures true-only-if-all-ready: res ==> len(procs) > 0 && wf.sink != nil && (forall k string :: k in procs ==> sawReady[procs[k]])
+//@   ensures grows: forall p ref :: old(sawReady)[p] ==> sawReady[p]
+//@   loop 0 invariant seen: forall k string :: $visited[k] ==> sawReady[procs[k]]
+//@   loop 0 invariant vis: forall k string :: $visited[k] ==> k in procs
+//@   loop 0 invariant grows: forall p ref :: old(sawReady)[p] ==> sawReady[p]
